@@ -165,7 +165,8 @@ def run(v, tier, seed):
     thorough = tier == "thorough"
     wd = vlib.fresh_dir(os.path.join(vlib.WORK, "c10", "run-" + tier))
     shutil.rmtree(os.path.join(vlib.REPLAYS, "C10"), ignore_errors=True)
-    schemas = catalogue.view_schemas()
+    import schemabuild     # + schemas built by spec/SchemaBuild.tla (the same ones the view machine gets)
+    schemas = catalogue.view_schemas() + schemabuild.generated_schemas(10 if thorough else 3, seed)[:4 if thorough else 1]
     configs = CONFIGS_THOROUGH if thorough else CONFIGS_QUICK
     t0 = time.time()
 
@@ -328,7 +329,9 @@ def replay(rp):
         print(json.dumps(case, indent=1)[:4000])
         return 0
     print(json.dumps({k: vec[k] for k in vec if k != "buf"}, indent=1)[:5000])
-    S = [x for x in catalogue.view_schemas() if x["package"] == case["schema"]][0]
+    import schemabuild
+    S = [x for x in catalogue.view_schemas() + schemabuild.generated_schemas(10, int(os.environ.get("VERIF_SEED", "1")))
+         + schemabuild.generated_schemas(3, int(os.environ.get("VERIF_SEED", "1"))) if x["package"] == case["schema"]][0]
     name = S["package"]
     wd = vlib.fresh_dir(os.path.join(vlib.WORK, "c10", "replay"))
     inc = vlib.gen_headers(sch.to_xml(S), name)
